@@ -10,6 +10,21 @@ _declare_mem_helpers are additionally compiled on their own and their BUCKET CHA
 with the Coq bucket model for several bucket counts.  RomBlock._get_read_data is compared with
 rom_read on every address (and one beyond each end).
 
+Tie (translator, py/genfrag_C08.py -> Gen/MemFrag.v, regenerated every run): the address guard, value
+guard and padded values of RomBlock._get_read_data (used by rom_read, so C08_rom is re-proved against
+the current source text), the store condition and operand positions of Simulation._mem_update, the
+operand positions of MemBlock._build and of the C memory-write emitter, the bucket count.
+
+Tie (structural gates): the Python program FastSimulation generates and the C text CompiledSimulation
+generates for each design are checked to be instances of the program shapes the theorems quantify over
+(reads = `d[mem].get(a, default)` / `lookup(mem, a[0])[n]`, writes = guarded `mem_ws.append` /
+guarded `insert`, all lookups before all inserts, mem_ws applied after sim_func).
+
+Coq's numeral parser/printer costs 1-3 ms per number, so histories are sent as one hexadecimal
+literal per cycle together with what the implementation produced, and Coq answers with booleans
+(Mem/MemHarness.v mem_check / sweep_check / walk_check / hm_check); the verbose mem_case is used
+only to explain a disagreement.
+
 Search: the same runs are compared with the array specification (Coq arr_run + an independent
 Python array written from the property text); ROM reads with data[a].
 
@@ -54,6 +69,8 @@ TRUSTED = ['Mem/MemDefs.v arr_step/arr_run/hist_reads (array specification, prov
 
 M64 = (1 << 64) - 1
 _REPORTED = {}
+_CTX = []          # the (capped) ctx, for the structural gates inside the runners
+_WORKDIR = []
 
 
 # ------------------------------------------------------------------ specification (search oracle)
@@ -171,12 +188,23 @@ class quiet_gcc(object):
 
 def run_python_sim(cls, block, cfgs, mems, inits, dflt, steps):
     """returns (reads per memory per cycle, final items per memory, port orders per memory)"""
-    mvm = {m: dict(i) for m, i in zip(mems, inits) if i or True}
-    sim = cls(tracer=pyrtl.SimulationTrace(block=block), memory_value_map=mvm, default_value=dflt, block=block)
+    mvm = {m: dict(i) for m, i in zip(mems, inits)}
     if cls is pyrtl.Simulation:
+        sim = cls(tracer=pyrtl.SimulationTrace(block=block), memory_value_map=mvm, default_value=dflt, block=block)
         nets = list(sim.mem_update_nets)
     else:
+        codefile = os.path.join(_WORKDIR[0], 'c08_fastsim_code.py') if _WORKDIR else None
+        sim = cls(tracer=pyrtl.SimulationTrace(block=block), memory_value_map=mvm, default_value=dflt, block=block,
+                  code_file=codefile)
         nets = [n for n in block if n.op == '@']
+        if codefile and _CTX:
+            try:
+                ev = fast_program_shape(open(codefile).read(), cfgs, dflt)
+                for c in cfgs:
+                    _CTX[0].count('fast_program_interleaving(R=read,W=guarded append)', ev[c.k] if len(ev[c.k]) <= 6 else 'longer')
+            except ShapeError as e:
+                _CTX[0].model_mismatch('FastSimulation generated program is not of the modelled shape: %s' % e,
+                                       {'memories': [c.desc() for c in cfgs]})
     for s in steps:
         sim.step(dict(s))
     tr = sim.tracer.trace
@@ -194,6 +222,13 @@ def run_compiled(block, cfgs, mems, inits, steps, probes):
     except pyrtl.PyrtlError as e:
         raise PyrtlRejected(str(e))
     nets = list(block.logic_subset('@'))
+    if _CTX:
+        try:
+            c_program_shape(sim, cfgs, inits)
+            _CTX[0].count('c_program_shape', 'lookups-then-guarded-inserts')
+        except ShapeError as e:
+            _CTX[0].model_mismatch('CompiledSimulation generated C is not of the modelled shape: %s' % e,
+                                   {'memories': [c.desc() for c in cfgs]})
     sim.run([dict(s) for s in steps])
     tr = sim.tracer.trace
     reads = [[[tr['m%d_o%d' % (c.k, j)][t] for j in range(c.nr)] for t in range(len(steps))] for c in cfgs]
@@ -243,6 +278,105 @@ def run_post(ctx, cls, post, cfgs, pm, inits, dflt, steps, what):
     reads = [[[tr['m%d_o%d' % (c.k, j)][t] for j in range(c.nr)] for t in range(len(steps))] for c in cfgs]
     finals = [list(sim.inspect_mem(inblock).items()) for (_, inblock) in pm]
     return reads, finals
+
+
+# ------------------------------------------------------------------ structural gates on the generated programs
+# The theorems C08_fast_program / C08_refines_array_fast quantify over EVERY straight-line program made of
+# `x = d[mem].get(a, default)` and `if en: mem_ws.append((mem, a, v))`; C08_refines_array_compiled over every
+# sequence of lookup()s followed by guarded insert()s.  These gates check that what the code generators emit
+# for the design at hand IS such a program (so the theorem applies to it for every input value).
+
+class ShapeError(Exception):
+    pass
+
+
+def _norm(src):
+    return re.sub(r'\s+', ' ', src)
+
+
+def fast_program_shape(code, cfgs, dflt):
+    """returns the interleaving of read / write events per memory, e.g. {0: 'WRWR'}"""
+    lines = code.split('\n')
+    if lines[:4] != ['def sim_func(d):', '    regs = {}', '    outs = {}', '    mem_ws = []']:
+        raise ShapeError('prologue of sim_func changed: %r' % lines[:4])
+    if lines[-1].strip() != 'return regs, outs, mem_ws':
+        raise ShapeError('sim_func does not return mem_ws last')
+    byid = {c.mem.id: c for c in cfgs}
+    events = {c.k: '' for c in cfgs}
+    i = 4
+    while i < len(lines) - 1:
+        ln = lines[i]
+        if re.match(r'\s*d\[.*\]\s*(=[^=]|\.)', ln) and 'get(' not in ln:
+            raise ShapeError('the generated program mutates its input dict: %r' % ln)
+        m = re.match(r'^    (\w+|outs\[.*\]) = (?:(\d+) & )?\(?d\["fs_mem(\d+)"\]\.get\((.+), (-?\d+)\)\)?$', ln)
+        if m:
+            c = byid[int(m.group(3))]
+            if m.group(2) is not None and int(m.group(2)) != (1 << c.dw) - 1:
+                raise ShapeError('read mask %s is not 2^%d-1' % (m.group(2), c.dw))
+            if int(m.group(5)) != dflt:
+                raise ShapeError('read default %s is not default_value %d' % (m.group(5), dflt))
+            events[c.k] += 'R'
+            i += 1
+            continue
+        m = re.match(r'^    if (.+):$', ln)
+        if m and i + 1 < len(lines):
+            m2 = re.match(r'^        mem_ws\.append\(\("fs_mem(\d+)", (.+), (.+)\)\)$', lines[i + 1])
+            if m2:
+                events[byid[int(m2.group(1))].k] += 'W'
+                i += 2
+                continue
+        if 'fs_mem' in ln or 'mem_ws' in ln:
+            raise ShapeError('unmodelled statement touching a memory: %r' % ln)
+        i += 1
+    for c in cfgs:
+        if events[c.k].count('R') != c.nr or events[c.k].count('W') != c.nw:
+            raise ShapeError('memory %d: events %s, expected %d reads and %d guarded appends' % (c.k, events[c.k], c.nr, c.nw))
+    import inspect
+    step = _norm(inspect.getsource(pyrtl.FastSimulation.step))
+    for needle in ('ins.update(self.mems)', 'self.regs, self.outs, mem_writes = self.sim_func(ins)',
+                   'for mem, addr, value in mem_writes: self.mems[mem][addr] = value'):
+        if needle not in step:
+            raise ShapeError('FastSimulation.step no longer contains %r' % needle)
+    if step.index('self.sim_func(ins)') > step.index('for mem, addr, value in mem_writes'):
+        raise ShapeError('FastSimulation.step applies mem_writes before running sim_func')
+    return events
+
+
+def c_program_shape(sim, cfgs, inits):
+    """the emitted C: create_hash_map(256, limbs) + one insert per initial item; in sim_run_step every read is
+    lookup(mem, addr[0])[n], every write is `if (en[0]) { insert(mem, addr[0], data); }`, all lookups precede all inserts"""
+    import copy
+    real = sim
+    sim = copy.copy(real)             # regenerate the text on a copy: _create_code renames the C variables
+    sim._dll = sim._dir = None        # the copy must not free the real library
+    sim.varname = {}
+    sim._uid_counter = 0
+    lines = []
+    sim._create_code(lines.append)
+    text = '\n'.join(lines)
+    if not re.search(r'int hash_code\(hashmap_t \*h, uint64_t key\)\s*\{\s*return key % h->size;\s*\}', text):
+        raise ShapeError('hash_code is no longer key % h->size')
+    ini = text[text.index('void initialize_mems() {'):text.index('static void sim_run_step')]
+    body = text[text.index('static void sim_run_step'):]
+    for c, init in zip(cfgs, inits):
+        vn = sim.varname[c.mem]
+        limbs = (c.dw + 63) // 64
+        if '%s = create_hash_map(256, %d);' % (vn, limbs) not in ini:
+            raise ShapeError('memory %d is not created as create_hash_map(256, %d)' % (c.k, limbs))
+        keys = [int(x) for x in re.findall(r'insert\(%s, (\d+), t\d+\);' % vn, ini)]
+        if keys != [a for a, _ in init]:
+            raise ShapeError('initialize_mems inserts keys %s, memory_value_map has %s' % (keys, [a for a, _ in init]))
+        rd = re.findall(r'^\w+\[(\d+)\] = lookup\(%s, \w+\[0\]\)\[(\d+)\](&0x[0-9A-F]+)?;$' % vn, body, flags=re.M)
+        if len(rd) != c.nr * limbs or any(a != b for a, b, _ in rd) or any(m for _, _, m in rd):
+            raise ShapeError('memory %d: read ports are not nr x limbs unmasked lookup(mem, addr[0])[n]' % c.k)
+        wr = re.findall(r'^if \(\w+\[0\]\) \{\ninsert\(%s, \w+\[0\], \w+\);\n\}$' % vn, body, flags=re.M)
+        if len(wr) != c.nw:
+            raise ShapeError('memory %d: %d guarded insert()s, expected %d' % (c.k, len(wr), c.nw))
+    if len(re.findall(r'\binsert\(', body)) != sum(c.nw for c in cfgs) or \
+            len(re.findall(r'\blookup\(', body)) != sum(c.nr * ((c.dw + 63) // 64) for c in cfgs):
+        raise ShapeError('unmodelled insert()/lookup() calls in sim_run_step')
+    if body.rfind('lookup(') > body.find('insert('):
+        raise ShapeError('a lookup() is emitted after an insert(): read-after-write within the cycle')
 
 
 # ------------------------------------------------------------------ Verilog memory fragment
@@ -617,8 +751,34 @@ def random_part(ctx, chk, ndesigns, ncyc_range, compiled_every, post_every, veri
         if dflt == 0 and di % compiled_every == 0:
             try:
                 res['compiled'] = run_compiled(block, cfgs, mems, inits, steps, case['probes'])
+                if any(c.aw > 64 for c in cfgs):
+                    ctx.count('compiled_wide_address', 'accepted')
             except PyrtlRejected as e:
                 ctx.count('compiled_rejected_by_pyrtl', str(e)[:60])
+                # sanctioned only for addresses wider than the 64-bit key of the C hash map: run the rest
+                keep = [mi for mi, c in enumerate(cfgs) if c.aw <= 64]
+                if len(keep) == len(cfgs):
+                    ctx.spec_violation('compiled:rejects-api-built-memory-design',
+                                       'CompiledSimulation rejected a MemBlock design with addrwidth <= 64: %s' % e,
+                                       {'seed': ctx.seed, 'design': di, 'memories': [c.desc() for c in cfgs]})
+                elif keep:
+                    sub = [cfgs[mi] for mi in keep]
+                    b3 = build_design(sub)
+                    try:
+                        r = run_compiled(b3, sub, [c.mem for c in sub], [inits[mi] for mi in keep],
+                                         steps_of(sub, [case['hists'][mi] for mi in keep], case['ncyc']),
+                                         [case['probes'][mi] for mi in keep])
+                        full = ([None] * len(cfgs), [None] * len(cfgs), [None] * len(cfgs))
+                        for j, mi in enumerate(keep):
+                            for q in range(3):
+                                full[q][mi] = r[q][j]
+                        res['compiled'] = full
+                    except PyrtlRejected as e2:
+                        ctx.spec_violation('compiled:rejects-api-built-memory-design',
+                                           'CompiledSimulation rejected a MemBlock design with addrwidth <= 64: %s' % e2,
+                                           {'seed': ctx.seed, 'design': di, 'memories': [c.desc() for c in sub]})
+                    for c, m in zip(cfgs, mems):
+                        c.mem = m
         if di % verilog_every == 0 and not any(c.tagged for c in cfgs):
             buf = io.StringIO()
             try:
@@ -653,13 +813,14 @@ def random_part(ctx, chk, ndesigns, ncyc_range, compiled_every, post_every, veri
             init, hist, dflt, probes = case['inits'][mi], case['hists'][mi], case['dflt'], case['probes'][mi]
             p_sim = res['sim'][2][mi]
             p_fast = res['fast'][2][mi]
-            p_comp = res['compiled'][2][mi] if 'compiled' in res else ident(c.nw)
+            has_comp = 'compiled' in res and res['compiled'][0][mi] is not None
+            p_comp = res['compiled'][2][mi] if has_comp else ident(c.nw)
             for p in (p_sim, p_fast, p_comp):
                 if sorted(p) != ident(c.nw):
                     raise RuntimeError('cannot identify write-port order: %r' % (p,))
             py_reads, py_final = spec_run(init, dflt, hist)
             case['py'].append((py_reads, py_final))
-            comp_probes = [v if isinstance(v, int) else -1 for v in res['compiled'][1][mi]] if 'compiled' in res else []
+            comp_probes = [v if isinstance(v, int) else -1 for v in res['compiled'][1][mi]] if has_comp else []
             case.setdefault('args', []).append((p_sim, p_fast, p_comp))
             exprs.append('mem_check %d %d %d %d%%nat %d%%nat %s %s %s %s %s %s %s %s %s %s %s' % (
                 dflt, c.aw, c.dw, c.nw, c.nr, hpairs(init), pack_hist(c, hist),
@@ -687,6 +848,8 @@ def random_part(ctx, chk, ndesigns, ncyc_range, compiled_every, post_every, veri
             nt = nontrivial(hist)
             for backend in sorted(res):
                 r = res[backend]
+                if r[0][mi] is None:
+                    continue
                 if backend == 'compiled':
                     ok = chk.compare(c, backend, init, 0, hist, py_reads, py_final, r[0][mi], r[1][mi], probes, replay,
                                      'probes', tie=(comp_r, comp_f))
@@ -1233,6 +1396,8 @@ def _timed(ctx, name, f, *a, **kw):
 def run(real_ctx):
     _REPORTED.clear()
     ctx = _Capped(real_ctx)
+    _CTX[:] = [ctx]
+    _WORKDIR[:] = [real_ctx.workdir]
     chk = Checker(ctx)
     quick = ctx.tier == 'quick'
     if quick:
@@ -1254,6 +1419,45 @@ def run(real_ctx):
         _timed(ctx, 'hashmap_part', hashmap_part, ctx, nseq=300, nops=120)
 
 
-def replay(ctx, data):
-    print(data)
-    run(ctx)
+def replay(real_ctx, data):
+    """re-run one reported case: `data` is the JSON written by the runner (memory configuration, initial contents,
+    default value, history); every back-end is run on it and compared with the array specification"""
+    rep = data.get('replay', data)
+    if 'memory' not in rep or 'history' not in rep:
+        print('replay: no single-memory history in this file; running the whole check')
+        return run(real_ctx)
+    _REPORTED.clear()
+    ctx = _Capped(real_ctx)
+    _CTX[:] = [ctx]
+    _WORKDIR[:] = [real_ctx.workdir]
+    chk = Checker(ctx)
+    m = rep['memory']
+    cfg = MemCfg(0, m['addrwidth'], m['bitwidth'], m['write_ports'], m['read_ports'], m.get('tagged_low_bits', False))
+    hist = [([tuple(w) for w in ws], list(rs)) for ws, rs in rep['history']]
+    init = [tuple(p) for p in rep.get('memory_value_map', [])]
+    dflt = rep.get('default_value', 0)
+    steps = steps_of([cfg], [hist], len(hist))
+    block = build_design([cfg])
+    mem = cfg.mem
+    py_reads, py_final = spec_run(init, dflt, hist)
+    probes = sorted(set(py_final) | {a for _, rs in hist for a in rs})[:16]
+    print('array specification: reads per cycle', py_reads, 'final', py_final)
+    runs = {}
+    runs['sim'] = run_python_sim(pyrtl.Simulation, block, [cfg], [mem], [init], dflt, steps)
+    runs['fast'] = run_python_sim(pyrtl.FastSimulation, block, [cfg], [mem], [init], dflt, steps)
+    if dflt == 0:
+        try:
+            runs['compiled'] = run_compiled(block, [cfg], [mem], [init], steps, [probes])
+        except PyrtlRejected as e:
+            print('CompiledSimulation rejected the design with a PyrtlError:', e)
+    post = pyrtl.synthesize(update_working_block=False, block=block)
+    pm = post_mems(ctx, post, [mem], 'synthesize')
+    runs['synth'] = run_post(ctx, pyrtl.Simulation, post, [cfg], pm, [init], dflt, steps, 'synthesize')
+    pyrtl.optimize(update_working_block=True, block=post)
+    runs['synth+opt'] = run_post(ctx, pyrtl.Simulation, post, [cfg], pm, [init], dflt, steps, 'optimize')
+    for backend, r in sorted(runs.items()):
+        print(backend, 'reads', r[0][0], 'final', r[1][0])
+        chk.compare(cfg, backend, init, 0 if backend == 'compiled' else dflt, hist, py_reads, py_final, r[0][0], r[1][0],
+                    probes, {'replayed': True, 'memory': cfg.desc(), 'memory_value_map': init, 'default_value': dflt},
+                    'probes' if backend == 'compiled' else 'items')
+        ctx.case(('replay', backend, repr(hist)), nontrivial=True)
